@@ -41,7 +41,7 @@ def run(run):
     ncases = run.gen("gen", SPEC, "SimplifyGen", p, cp, workers=1, timeout=3000)
     tr1 = os.path.join(out, "trace_replay.ndjson")
     run.drive(["c13", "replay", cp, tr1], timeout=3000)
-    nrand = 1500 if quick else 40000
+    nrand = 5000 if quick else 40000
     tr2 = os.path.join(out, "trace_random.ndjson")
     run.drive(["c13", "random", nrand, tr2], timeout=3000)
     run.bounds = dict(k, random=nrand, mc_maxlen=4 if quick else 5)
